@@ -42,7 +42,7 @@ class SpecFn:
 
 SPEC_NAMES = {n: SpecFn(n) for n in ('implies', 'iff', 'forall', 'exists', 'old', 'fresh_obj',
                                      'unchanged', 'typeis', 'int_text', 'str_of',
-                                     'sumover', 'sumupto', 'oldget')}
+                                     'sumover', 'sumupto', 'oldget', 'keyat')}
 _clause_cache = {}
 
 
@@ -267,7 +267,7 @@ class CallMixin:
     def call_function(self, func, args, kwargs, owner=None) -> SV:
         f = inspect.unwrap(func)
         if getattr(f, '__pyvc_spec__', False):
-            return self.inline(f, args, kwargs, owner, spec=True)
+            return self.inline(getattr(f, '__wrapped_spec__', f), args, kwargs, owner, spec=True)
         un = getattr(f, '__pyvc_uninterp__', None)
         if un is not None:
             sorts, result = un
@@ -794,6 +794,13 @@ class CallMixin:
                 raise Unsupported('div/mod of a bound variable under this quantifier')
             q = z3.ForAll(vars_, body) if name == 'forall' else z3.Exists(vars_, body)
             return SV(BOOL, q)
+        if name == 'keyat':
+            # k-th key (member) in the ghost enumeration of a dict (set)
+            cv = self.force(self.eval(e.args[0]))
+            kk = self.as_int(self.force(self.eval(e.args[1])))
+            ctx = self.order_of(cv)
+            ordf, mem = ctx[3]
+            return self.wf_value(SV(ctx[4], ordf(mem, kk)))
         if name == 'oldget':
             # element i (a value of the CURRENT state) of container c as it was in the OLD state
             if self.old is None:
